@@ -653,7 +653,7 @@ func TestC09(t *testing.T) {
 			res.AddSample(map[string]interface{}{"history": histString(behs[i]), "crash_images": o.images, "obligations": o.obligations})
 		}
 		if traceOut != "" {
-			traces = append(traces, map[string]interface{}{"hist": i, "ops": opsOf(behs[i]), "events": o.events})
+			traces = append(traces, map[string]interface{}{"hist": i, "steps": stepsNoPost(behs[i]), "events": o.events})
 		}
 	}, func(i int, v interface{}, stack string) {
 		res.SetInconclusive(fmt.Sprintf("harness panic in history %d: %v\n%s", i, v, stack))
@@ -673,10 +673,17 @@ func TestC09(t *testing.T) {
 	}
 }
 
-func opsOf(beh behav.Behaviour) []string {
-	var out []string
+// stepsNoPost returns the steps of a history without their post states.
+func stepsNoPost(beh behav.Behaviour) []behav.Step {
+	var out []behav.Step
 	for _, st := range beh {
-		out = append(out, st.Str("op"))
+		cp := behav.Step{}
+		for k, v := range st {
+			if k != "post" {
+				cp[k] = v
+			}
+		}
+		out = append(out, cp)
 	}
 	return out
 }
